@@ -54,6 +54,8 @@ def c05_worker(item):
         res.count("big-file-(>65535-lines)")
     else:
         ws = wsgen.generate(seed, cfg)
+        if r.random() < 0.1 and wsgen.add_nested_emptying(ws, r):
+            res.count("shape:nested-directories-emptied")
     threads = r.choice([1, 1, 2, 4, 16])
     backup = r.choice(["always", "onfail", "never", None])
     verbosity = r.choice(["-q", "-q", None, "-v"])
@@ -386,6 +388,8 @@ def c09_worker(item):
         ws = c09_type_change_case(r, seed)
         shape = "path-changes-between-file-and-directory"
         res.count("shape:" + shape)
+    if r.random() < 0.08 and not getattr(ws, "no_goal_truth", False) and wsgen.add_nested_emptying(ws, r):
+        res.count("shape:nested-directories-emptied")
     if r.random() < 0.1 and not getattr(ws, "no_goal_truth", False) and wsgen.add_newdir_reject(ws, r):
         res.count("shape:reject-in-a-directory-created-by-this-run")
     if r.random() < 0.15:
@@ -563,6 +567,68 @@ def expected_rejects(ws, fail_idx):
     return out
 
 
+def c13_drift_case(r, seed):
+    """directed shape: a file that gained K lines at the top (among them a copy of a later region) since the patch was made;
+    the patch has three or four hunks of which one in the middle cannot apply.  The hunks around it apply with offset K
+    - also the one right after the failed hunk, whose look-alike in the new head lines is nearer to its stated line -
+    and the reject holds exactly the failed hunk."""
+    import udiff
+    nh = r.choice([3, 3, 4])
+    gaps = [r.randint(9, 16) for _ in range(nh)]
+    pos = []
+    x = r.randint(5, 9)
+    for g in gaps:
+        pos.append(x)
+        x += g
+    n = pos[-1] + r.randint(5, 12)
+    body = [b"L%d body line %d\n" % (i, (i * 7919) % 101) for i in range(1, n + 1)]
+    new_body = list(body)
+    for q in pos:
+        new_body[q - 1] = b"L%d CHANGED\n" % q
+    ctx = 3
+    hunks = udiff.diff_hunks(body, new_body, ctx)
+    if len(hunks) != nh:
+        return None
+    fail_i = r.randint(1, nh - 2) if nh > 2 else 1
+    nxt = pos[fail_i + 1]                 # changed line of the hunk after the failed one
+    look = body[nxt - 4:nxt + 3]           # its complete old side
+    k = r.randint(len(look) + 2, max(len(look) + 3, nxt + 10))
+    head = [b"H%d new head line\n" % i for i in range(k)]
+    stated = nxt - 3
+    s0 = max(0, min(k - len(look), stated - 1 + r.choice([-2, -1, 1, 2])))
+    if s0 + 1 == stated + k:
+        return None
+    head[s0:s0 + len(look)] = look
+    on_disk = list(body)
+    on_disk[pos[fail_i] - 1] = b"L%d edited locally\n" % pos[fail_i]
+    name = r.choice(["drift.c", "src/drift.c"])
+    t0 = {name: (b"".join(head + on_disk), 0o644), "other.txt": (b"o1\no2\n", 0o644)}
+    op = wsgen.Op("modify", name, pre=b"".join(body), post=b"".join(new_body), pre_mode=0o644, post_mode=0o644)
+    op.poison = "hunks"
+    op.hunks = hunks
+    op.failing = [fail_i]
+    pt = wsgen.PatchSpec("p-drift.patch", [op], 1, False, False)
+    pt.text = b"--- a/%s\n+++ b/%s\n" % (name.encode(), name.encode()) + b"".join(h.render() for h in hunks)
+    pt.series_line = pt.name
+    ws = wsgen.Workspace()
+    ws.seed = seed
+    ws.t0 = t0
+    ws.patches = [pt]
+    ws.trees = [t0]
+    ws.fail_at = 0
+    if r.random() < 0.5:
+        o2 = wsgen.Op("modify", "other.txt", pre=b"o1\no2\n", post=b"o1\nO2\n", pre_mode=0o644, post_mode=0o644)
+        p0 = wsgen.PatchSpec("p-before.patch", [o2], 1, False, False)
+        wsgen.render_patch(p0, r)
+        t1 = dict(t0)
+        t1["other.txt"] = (o2.post, 0o644)
+        ws.patches = [p0, pt]
+        ws.trees = [t0, t1]
+        ws.fail_at = 1
+    ws.drift = k
+    return ws
+
+
 def c13_worker(item):
     seed, binary = item
     r = random.Random(seed * 32452843 + 13)
@@ -574,6 +640,11 @@ def c13_worker(item):
         return res
     if r.random() < 0.15 and wsgen.add_newdir_reject(ws, r):
         res.count("shape:reject-in-a-directory-created-by-this-run")
+    if r.random() < 0.04:
+        dws = c13_drift_case(r, seed)
+        if dws is not None:
+            ws = dws
+            res.count("shape:failed-hunk-between-hunks-applied-with-an-offset")
     threads = r.choice([1, 2, 4, 16])
     verbosity = r.choice(["-q", None])
     args = base_args(threads=threads, backup=r.choice(["never", None, "always"]), verbosity=verbosity) + ["push", "-a"]
@@ -1934,6 +2005,8 @@ def c06_worker(item):
     ws = wsgen.generate(seed, cfg)
     if r.random() < 0.25 and wsgen.add_newdir_reject(ws, r):
         res.count("shape:reject-in-a-directory-created-by-this-run")
+    if r.random() < 0.1 and wsgen.add_nested_emptying(ws, r):
+        res.count("shape:nested-directories-emptied")
     nthreads = r.choice([2, 3, 4, 8, 16])
     backup = r.choice(["always", None, "never"])
     bcount = r.choice([None, None, None, 0, 1, 2, "all"])
